@@ -597,14 +597,20 @@ _public_ ssize_t m_mod_src_len(const m_mod_t *mod, m_src_types type) {
     M_PARAM_ASSERT(type >= M_SRC_TYPE_PS && type <= M_SRC_TYPE_END);
     
     int len = 0;
-    m_itr_foreach(mod->subscriptions, {
-        ev_src_t *src = m_itr_get(m_itr);
-        if (!(src->flags & M_SRC_INTERNAL)) {
-            len++;
-        }
-    });
+    /* M_SRC_TYPE_END means every type */
+    if (type == M_SRC_TYPE_PS || type == M_SRC_TYPE_END) {
+        m_itr_foreach(mod->subscriptions, {
+            ev_src_t *src = m_itr_get(m_itr);
+            if (!(src->flags & M_SRC_INTERNAL)) {
+                len++;
+            }
+        });
+    }
     
     for (int i = M_SRC_TYPE_FD; i < M_SRC_TYPE_END; i++) {
+        if (type != i && type != M_SRC_TYPE_END) {
+            continue;
+        }
         m_itr_foreach(mod->srcs[i], {
             ev_src_t *src = m_itr_get(m_itr);
             if (!(src->flags & M_SRC_INTERNAL)) {
